@@ -204,7 +204,8 @@ def run_one(mod, proof, ix, workdir):
         res = P.prove(workdir, proof.name, text, entry, enforce=proof.enforce, replace=replace,
                       loop_contracts=proof.loop_contracts, solver=proof.solver, unwind=unwind,
                       timeout=proof.timeout, object_bits=proof.object_bits, mem_gb=proof.mem_gb,
-                      unwindset=proof.unwindset, extra_checks=proof.check_flags)
+                      unwindset=proof.unwindset, extra_checks=proof.check_flags,
+                      unwinding_assertions=not getattr(proof, "no_unwinding_assertions", False))
         out["status"] = "ok"
         out["result"] = res
         out["c_file"] = os.path.join(workdir, proof.name + ".c")
